@@ -46,6 +46,7 @@ fn main() {
     }
     let code = match args[1].as_str() {
         "selfcheck" => 0,
+        "explore" => cvx::replay::explore_case(replay.as_deref().expect("--replay <case file>")),
         "replay" => match &replay {
             Some(p) => cvx::replay::run(p),
             None => {
@@ -56,6 +57,8 @@ fn main() {
         p @ ("C01" | "C02" | "C03" | "C04") => cvx::checks::static_checks::run(p, tier),
         "C07" => cvx::checks::static_checks::run_c07(tier),
         "C18" => cvx::checks::c18::run(tier),
+        "C15" => cvx::checks::c15::run(tier),
+        "C14" => cvx::checks::c14::run(tier),
         "C13" => cvx::checks::c13::run(tier),
         "C10" => cvx::checks::c10::run(tier),
         "C19" => cvx::checks::c19::run(tier),
